@@ -11,7 +11,7 @@ Search     : (ii) and (iii) are the property itself on the implementation.
 """
 import os, sys, subprocess, tempfile, hashlib, random, shutil
 import numpy as np
-import antgen, c08
+import antgen, c08, common
 
 LEVEL = 'proof'
 MODULES = ['C14']
@@ -195,7 +195,7 @@ def two_process(argv, tmp):
         os.makedirs(d, exist_ok=True)
         cmd = [sys.executable, '-c', 'import sys; from mininec.mininec import main; sys.exit(main(sys.argv[1:]) or 0)'] + argv + \
               ['--output-cmdline=' + os.path.join(d, 'o.cmd'), '--output-basic-input=' + os.path.join(d, 'o.mini')]
-        env = dict(os.environ, PYTHONHASHSEED=str(k + 1))
+        env = dict(os.environ, PYTHONHASHSEED=str(k + 1), PYTHONPATH=common.REPO)
         p = subprocess.run(cmd, stdout=subprocess.PIPE, stderr=subprocess.PIPE, env=env, cwd=d)
         files = {}
         for fn in ('o.cmd', 'o.mini'):
